@@ -29,6 +29,9 @@ type Case struct {
 	Src    string   `json:"src,omitempty"`
 	Name   string   `json:"name,omitempty"`
 	Probes []string `json:"probes,omitempty"`
+	// code: earlier definitions of the same name, evaluated before Src (the
+	// load form has to be that of the last definition)
+	Prior []string `json:"prior,omitempty"`
 
 	// def, session
 	Items []Item `json:"items,omitempty"`
@@ -106,6 +109,10 @@ func buildCodeCase(r *rand.Rand, kind, feat, tag string) Case {
 	switch kind {
 	case "defun":
 		c.Name = fmt.Sprintf("k%s-%s", tag, fw.Pick(r, []string{"f", "compute", "a-rather-long-function-name", "fn"}))
+		for k, n := 0, []int{0, 0, 0, 1, 1, 2}[r.IntN(6)]; k < n; k++ {
+			fd, _ := genFunction(r, c.Name, 1+r.IntN(2), codeOpts{})
+			c.Prior = append(c.Prior, fd.Src)
+		}
 		fd, _ := genFunction(r, c.Name, depth, o)
 		c.Src, c.Probes = fd.Src, fd.Probes
 	case "lambda":
@@ -113,6 +120,9 @@ func buildCodeCase(r *rand.Rand, kind, feat, tag string) Case {
 		c.Src, c.Probes = fd.Src, fd.Probes
 	case "defmacro":
 		c.Name = fmt.Sprintf("k%s-%s", tag, fw.Pick(r, []string{"m", "with-something", "mac"}))
+		for k, n := 0, []int{0, 0, 0, 1, 1, 2}[r.IntN(6)]; k < n; k++ {
+			c.Prior = append(c.Prior, genMacro(r, c.Name, codeOpts{}).Src)
+		}
 		fd := genMacro(r, c.Name, o)
 		c.Src, c.Probes = fd.Src, fd.Probes
 	default:
@@ -400,6 +410,15 @@ func execCode(x *fw.Ctx, c Case) {
 		obj = res
 		scope.Let(slip.Symbol("c19-fn"), obj)
 	default:
+		for _, prior := range c.Prior {
+			if _, err := evalForms(scope, prior); err != nil {
+				x.Cover("constructor-rejected")
+				x.Trivial()
+				obs["src_error"] = err.String()
+				return
+			}
+			x.Cover("redefined:" + c.Kind)
+		}
 		if _, err := evalForms(scope, c.Src); err != nil {
 			x.Cover("constructor-rejected")
 			x.Trivial()
